@@ -820,6 +820,23 @@ def _np_svd(a, p):
     return [u, s, vh]
 
 
+def _cu_qr_recon(a, p):
+    q, r = _linalg().qr(a)
+    return _xp().matmul(q, r)
+
+
+def _cu_svd_recon(a, p):
+    xp = _xp()
+    u, s_, vh = _linalg().svd(a, full_matrices=False)
+    return xp.matmul(u * xp.expand_dims(s_, axis=0), vh)
+
+
+# Q and R (U, Vh) are only unique up to signs: compared through reconstruction
+reg("qr_recon", 1, _gen_qr, lambda a, p: a, _cu_qr_recon, exact=False, weight=3, tags=("linalg", "qr"))
+reg("svd_recon", 1, _gen_qr, lambda a, p: a, _cu_svd_recon, exact=False, weight=2, tags=("linalg", "qr"))
+reg("svd_s", 1, _gen_qr, lambda a, p: np.linalg.svd(a, compute_uv=False),
+    lambda a, p: _linalg().svd(a, full_matrices=False)[1], exact=False, weight=1, tags=("linalg", "qr"))
+
 reg("svd", 1, _gen_qr, _np_svd, lambda a, p: list(_linalg().svd(a, full_matrices=False)), exact=False,
     nout=3, weight=2, tags=("linalg", "multi", "qr"))
 
@@ -1046,6 +1063,7 @@ reg("create", 0, lambda tp: _gen_creation(tp), lambda p: _np_creation(p), None, 
 # ---------------------------------------------------------------------------
 
 INEXACT_CREATE = {"linspace", "random"}
+NO_DIRECT_ORACLE = {"qr", "svd"}  # factors are unique only up to signs
 
 
 class Shadow:
@@ -1080,7 +1098,7 @@ class Shadow:
             with np.errstate(all="ignore"):
                 r = op.np_fn(*args, p)
             ex = op.exact and all(self.exact[i] for i in step["args"])
-            rnd = any(self.random[i] for i in step["args"])
+            rnd = any(self.random[i] for i in step["args"]) or step["op"] in NO_DIRECT_ORACLE
         rs = r if op.nout > 1 else [r]
         if len(rs) != op.nout:
             raise ValueError("nout mismatch")
@@ -1111,7 +1129,7 @@ class Built:
         self.skipped: list[int] = []
 
 
-def build_inputs(prog, spec, source_store=None):
+def build_inputs(prog, spec, source_store=None, reuse_sources=False):
     """Create the cubed input arrays. ``from_zarr`` inputs are written to
     ``source_store`` with plain Zarr before anything is simulated."""
     import cubed
@@ -1128,9 +1146,10 @@ def build_inputs(prog, spec, source_store=None):
         if a.ndim == 0 or a.size == 0:
             src = "asarray"
         if src == "from_zarr" and source_store is not None:
-            za = zarr.create_array(store=source_store, name=f"src-{k}", shape=a.shape, dtype=a.dtype,
-                                   chunks=tuple(max(c, 1) for c in chunks))
-            za[...] = a
+            if not reuse_sources:
+                za = zarr.create_array(store=source_store, name=f"src-{k}", shape=a.shape, dtype=a.dtype,
+                                       chunks=tuple(max(c, 1) for c in chunks))
+                za[...] = a
             vals.append(cubed.from_zarr(source_store, path=f"src-{k}", spec=spec))
         elif src == "from_array":
             vals.append(cubed.from_array(a, chunks=chunks, spec=spec))
@@ -1139,9 +1158,9 @@ def build_inputs(prog, spec, source_store=None):
     return vals
 
 
-def build(prog, spec, source_store=None, on_step=None) -> Built:
+def build(prog, spec, source_store=None, on_step=None, reuse_sources=False) -> Built:
     b = Built()
-    b.values = build_inputs(prog, spec, source_store)
+    b.values = build_inputs(prog, spec, source_store, reuse_sources=reuse_sources)
     for si, st in enumerate(prog["steps"]):
         op = OPS[st["op"]]
         p = st.get("p", {})
@@ -1212,10 +1231,10 @@ def compare(got, want, exact=True):
 PROFILES = {
     "general": {},
     "rechunk": {"rechunk": 30, "merge_chunks": 6, "getitem": 6, "concat": 6, "reshape": 4},
-    "multi": {"unstack2": 20, "broadcast_arrays": 8, "qr": 6, "svd": 3, "stack": 8, "add": 10},
+    "multi": {"unstack2": 20, "broadcast_arrays": 8, "qr": 6, "svd": 3, "qr_recon": 6, "svd_recon": 3, "stack": 8, "add": 10},
     "reduce": {"sum": 14, "mean": 8, "argred": 8, "var": 6, "cumulative": 8, "nanred": 4},
     "elemwise": {"add": 12, "multiply": 8, "negative": 6, "where": 6, "scalar_op": 6, "astype": 4},
-    "hostile": {"qr": 10, "svd": 6, "cumulative": 12, "reshape": 10, "concat": 8, "stack": 8, "groupby": 6,
+    "hostile": {"qr": 8, "svd": 5, "qr_recon": 8, "svd_recon": 4, "cumulative": 12, "reshape": 10, "concat": 8, "stack": 8, "groupby": 6,
                 "var": 8, "pad": 5, "map_overlap": 5, "merge_chunks": 5, "getitem": 10, "roll": 6, "rechunk": 8,
                 "argred": 6, "nanred": 5, "take": 5, "tile": 4, "repeat": 4, "broadcast_to": 4, "searchsorted": 4,
                 "unstack2": 5, "diff": 4},
